@@ -15,7 +15,7 @@
    model returns, or the reverse), 2 skipped, 3 returned values differ,
    4 tested-only component crashed / hung, 5 implementation and model both panic
    (a genuine defect the model reproduces). *)
-From Verif Require Export Base.GoSem Base.GoStrings Css.Urls Css.PageSel Css.HtmlAttr Css.SvgAttr.
+From Verif Require Export Base.GoSem Base.GoStrings Css.Urls Css.PageSel Css.HtmlAttr Css.SvgAttr Css.ColorMq.
 From Coq Require Import List ZArith NArith Bool.
 Import ListNotations.
 
@@ -35,7 +35,9 @@ Inductive case :=
 | CSvgOpacity (s : list N) (oc : N)
 | CSvgUrl (s : list N) (oc : N)
 | CPainter (s : list N) (oc : N) (kind : N)
-| CFontWeight (s : list N) (oc : N) (v : Z).
+| CFontWeight (s : list N) (oc : N) (v : Z)
+| CColor (t : ptok) (oc : N) (ctype : N)          (* Color.Type: 0 invalid, 1 currentColor, 2 rgba *)
+| CMedia (toks : list ptok) (oc : N) (media : list (list N)).
 
 (* model observable: (outcome constructor, value digest) -- a uniform shape so
    that replays can print it: oc 0/1/2 as above, 9 = out of fuel *)
@@ -45,7 +47,8 @@ Inductive obs :=
 | OSels (oc : N) (sels : list psel)
 | OInts (oc : N) (l : list Z)
 | OPar (oc : N) (x y : list N) (none slice : bool)
-| OOnly (oc : N).
+| OOnly (oc : N)
+| OMedia (oc : N) (media : list (list N)).
 
 Definition oc_of {A} (r : res A) : N :=
   match r with Ok _ => 0%N | Panic _ => 2%N | OutOfFuel => 9%N end.
@@ -105,6 +108,15 @@ Definition model_out (c : case) : obs :=
       end
   | CFontWeight s _ _ =>
       match parse_font_weight s with Ok v => OInts 0%N [v] | r => OInts (oc_of r) [] end
+  | CColor t _ _ =>
+      match parse_color t with
+      | Ok ColInvalid => OInts 0%N [0%Z]
+      | Ok ColKeywordLookup => OInts 0%N [1%Z]       (* any type: depends on the keyword table *)
+      | Ok ColRGBA => OInts 0%N [2%Z]
+      | r => OInts (oc_of r) []
+      end
+  | CMedia toks _ _ =>
+      opt_obs (parse_media_query toks) (fun m => OMedia 0%N m) (OMedia 1%N []) (fun k => OMedia k [])
   end.
 
 (* ---- equalities *)
@@ -123,6 +135,12 @@ Fixpoint psels_eqb (a b : list psel) : bool :=
   match a, b with
   | [], [] => true
   | x :: a', y :: b' => psel_eqb x y && psels_eqb a' b'
+  | _, _ => false
+  end.
+Fixpoint strs_eqb (a b : list (list N)) : bool :=
+  match a, b with
+  | [], [] => true
+  | x :: a', y :: b' => list_eqb x y && strs_eqb a' b'
   | _, _ => false
   end.
 Definition kv_in (e : kv) (l : list kv) : bool :=
@@ -167,6 +185,13 @@ Definition check (c : case) : N :=
   | CSvgUrl _ oc, OOnly m => verdict m (if N.eqb oc 2 then 2%N else 0%N) true
   | CPainter _ oc kind, OInts m l => verdict m oc (negb (N.eqb oc 0) || zlist_eqb l [Z.of_N kind])
   | CFontWeight _ oc v, OInts m l => verdict m oc (negb (N.eqb oc 0) || zlist_eqb l [v])
+  | CColor t oc ctype, OInts m l =>
+      verdict m oc (negb (N.eqb oc 0) ||
+                    match t with
+                    | PIdent _ => true
+                    | _ => zlist_eqb l [Z.of_N ctype]
+                    end)
+  | CMedia _ oc media, OMedia m media' => verdict m oc (negb (N.eqb oc 0) || strs_eqb media media')
   | _, _ => 1%N
   end.
 
